@@ -1,5 +1,6 @@
 import PsV.Proofs.Bridge
 import PsV.Proofs.Unity
+import PsV.Proofs.RoundingEval
 /-!
 # C01 — evaluation equals the tensor-product B-spline sum it represents
 
@@ -8,7 +9,16 @@ equals `specEval` (sum over **all** stored coefficients of coefficient × Π Cox
 functions with the knot convention of the property), for every number of dimensions, every order,
 every admissible knot vector (minimum length included, repeated knots included, arbitrary padding
 values) and every point the lookup accepts — over any linearly ordered field (`Rat` is what the
-driver runs; IEEE rounding is outside the theorem and is covered by the envelope check).
+driver runs).
+
+**Rounding** (`C01_rounding_envelope_partial`, `C01_rounded_eval_near_spec_partial`): the same model run with every
+operation and every store rounded (any roundings of relative error ≤ ε: the standard model of IEEE
+arithmetic without underflow/overflow, `C01_standard_model`) differs from the exact value by at most
+`((1+ε)^K − 1)·Σ|coef|·ΠB`, `K = 3 + ndim(7·maxorder+3) + 2·Π(order_d+1)`, at every point inside a non-empty
+knot interval of the fully supported range; `C01_envelope_linear`: `(1+ε)^K − 1 ≤ 2Kε` when `2Kε ≤ 1`, which
+is below the envelope `4(N+4·ndim·(maxorder+1))·u·S` the correspondence check allows.  Partial: margins
+(extrapolated recurrences change sign), derivatives, underflow/overflow are not covered by the theorem
+and stay with the measured envelope.
 -/
 namespace PsV
 variable {α : Type} [Field α] [LinearOrder α]
@@ -99,5 +109,74 @@ example : (⟨[⟨2, 7, 4, 1, fun i => (i : Rat)⟩], fun _ => 1⟩ : Table Rat)
   · exact ⟨Or.inl (by norm_num), trivial⟩
   · simp [searchCenters, searchAxis, Dim.axis, bsearch, Cmp.lt, Cmp.le]
     norm_num
+
+end PsV
+
+namespace PsV
+section rounding
+variable {F : Type} [Field F] [LinearOrder F] [IsStrictOrderedRing F] {ε : F} {fl st : F → F}
+
+/-- the standard model `fl(a) = a(1+δ)`, `|δ| ≤ u < 1`, is a rounding of relative error `ε = u/(1-u)` -/
+theorem C01_standard_model (u a δ : F) (hu0 : 0 ≤ u) (hu1 : u < 1) (hδ : |δ| ≤ u) :
+    RelErr (u / (1 - u)) 1 a (a * (1 + δ)) := by
+  have h1 : 0 < 1 - u := by linarith
+  have e : 1 + u / (1 - u) = 1 / (1 - u) := by field_simp; ring
+  refine ⟨1 + δ, rfl, ?_, ?_⟩
+  · rw [pow_one, e, one_div, inv_inv]; linarith [(abs_le.1 hδ).1]
+  · rw [pow_one, e, le_div_iff₀ h1]
+    nlinarith [(abs_le.1 hδ).2, (abs_le.1 hδ).1]
+
+/-- **Forward error bound for the evaluation routine** (model at rounded arithmetic vs the same model exact). -/
+theorem C01_rounding_envelope_partial (hε : 0 ≤ ε) (hfl : ∀ a, RelErr ε 1 a (fl a)) (hst : ∀ a, RelErr ε 1 a (st a))
+    (T : Table F) (xs : List F) (cs : List Nat) (n : Nat)
+    (hint : AllInterior T.dims xs cs) (hn : ∀ d ∈ T.dims, d.order ≤ n) :
+    |@ndsplineeval F (Arith.rounded fl st) T xs cs 0 - @ndsplineeval F (Arith.ofField F) T xs cs 0| ≤
+      gfac ε (3 + T.dims.length * (7 * n + 3) + 2 * blockSize T.dims) *
+        @ndsplineeval F (Arith.ofField F) ⟨T.dims, fun i => |T.coef i|⟩ xs cs 0 :=
+  ndsplineeval_rounding hε hfl hst T xs cs n hint hn
+
+/-- … and therefore against the specification: rounded evaluation is within the envelope of the
+tensor-product sum, the envelope being the sum of the magnitudes of its terms. -/
+theorem C01_rounded_eval_near_spec_partial (hε : 0 ≤ ε) (hfl : ∀ a, RelErr ε 1 a (fl a)) (hst : ∀ a, RelErr ε 1 a (st a))
+    (T : Table F) (xs : List F) (cs : List Nat) (n : Nat) (hwf : T.WF)
+    (hlen : T.dims.length = xs.length) (hnd : AllNonDegenerate T.dims xs)
+    (hs : @searchCenters F (cmpLO F) (T.dims.map Dim.axis) xs = .ok cs)
+    (hint : AllInterior T.dims xs cs) (hn : ∀ d ∈ T.dims, d.order ≤ n) :
+    |@ndsplineeval F (Arith.rounded fl st) T xs cs 0
+        - @specEval F (Arith.ofField F) T xs (List.replicate T.dims.length .value)| ≤
+      gfac ε (3 + T.dims.length * (7 * n + 3) + 2 * blockSize T.dims) *
+        @specEval F (Arith.ofField F) ⟨T.dims, fun i => |T.coef i|⟩ xs (List.replicate T.dims.length .value) := by
+  have h := C01_rounding_envelope_partial hε hfl hst T xs cs n hint hn
+  rw [C01_eval_eq_spec_partial T xs cs hwf hlen hnd hs] at h
+  have habs := C01_eval_eq_spec_partial (⟨T.dims, fun i => |T.coef i|⟩ : Table F) xs cs ⟨hwf.dims, hwf.stride⟩ hlen hnd hs
+  rw [habs] at h
+  exact h
+
+/-- the factor is at most `2Kε` as long as `2Kε ≤ 1` -/
+theorem C01_envelope_linear (hε : 0 ≤ ε) (K : Nat) (hK : 2 * (K : F) * ε ≤ 1) : gfac ε K ≤ 2 * K * ε := by
+  unfold gfac
+  suffices h : ∀ k : Nat, k ≤ K → (1 + ε) ^ k ≤ 1 + 2 * k * ε by linarith [h K (le_refl _)]
+  intro k
+  induction k with
+  | zero => intro _; simp
+  | succ k ih =>
+    intro hk
+    have ih' := ih (by omega)
+    have hkK : (k : F) ≤ K := by exact_mod_cast (by omega : k ≤ K)
+    have h2 : 2 * (k : F) * ε ≤ 1 := le_trans (by nlinarith) hK
+    have h1e : 0 ≤ 1 + ε := by linarith
+    calc (1 + ε) ^ (k + 1) = (1 + ε) ^ k * (1 + ε) := pow_succ _ _
+      _ ≤ (1 + 2 * k * ε) * (1 + ε) := mul_le_mul_of_nonneg_right ih' h1e
+      _ ≤ 1 + 2 * ((k + 1 : Nat) : F) * ε := by push_cast; nlinarith [mul_nonneg hε hε]
+
+end rounding
+
+/-- Non-vacuity of the rounding theorems: rounding hypotheses (`fl = st = id`, `ε = 1/8`; any `ε ≥ 0` works) and an
+interior point of a concrete 1-d table (order 2, knots 0..6, `x = 7/2`, centre 3). -/
+example : (∀ a : Rat, RelErr (1/8 : Rat) 1 a (id a)) ∧
+    AllInterior [(⟨2, 7, 4, 1, fun i => (i : Rat)⟩ : Dim Rat)] [(7/2 : Rat)] [3] := by
+  refine ⟨fun a => (RelErr.refl (by norm_num) a).mono (by norm_num) (by omega), ⟨?_, trivial⟩⟩
+  exact ⟨by decide, by decide, by norm_num, by norm_num, by norm_num,
+    fun a b _ hab _ => by show ((a:Int):Rat) ≤ ((b:Int):Rat); exact_mod_cast hab⟩
 
 end PsV
